@@ -266,23 +266,29 @@ def gc_call(case, tmpdir):
     return (seen[-1] if seen else None), err, rnd, nxf
 
 
+def gc_text(case):
+    d = {k: v for k, v in case.items() if k not in ("fam", "draws")}
+    d["draws"] = {"vec": case["draws"]["vec"], "fill": case["draws"]["fill"]}
+    return "graphcoloring.generate(" + ", ".join(f"{k}={v}" for k, v in d.items()) + ")"
+
+
 def gc_case(case, part, tmpdir, verbose=False):
     fam = "graphcoloring|" + case["graph"]
     form = "soft" if case["soft"] else ("hard-intentional" if case["intentional"] else "hard-extensive")
     dcop, err, rnd, nxf = gc_call(case, tmpdir)
     if err is not None or dcop is None:
         what = "loops" if isinstance(err, GeneratorLoops) else "raised|" + type(err).__name__
-        part.violation(f"{fam}|{what}", f"graphcoloring.generate({case}) -> {err!r}, no DCOP produced", case)
+        part.violation(f"{fam}|{what}", f"{gc_text(case)} -> {err!r}, no DCOP produced", case)
         return ("raised", type(err).__name__)
     n, ncol = case["n"], case["colors"]
     names = sorted(dcop.variables)
     rank = {v: i for i, v in enumerate(names)}
     # requested variables and colours
     if len(names) != n:
-        part.violation(f"{fam}|variables-count", f"{case}: {len(names)} variables {names}, requested {n}", case)
+        part.violation(f"{fam}|variables-count", f"{gc_text(case)}: {len(names)} variables {names}, requested {n}", case)
     doms = {tuple(dcop.variables[v].domain.values) for v in names}
     if any(len(d) != ncol or len(set(d)) != ncol for d in doms) or len(doms) > 1:
-        part.violation(f"{fam}|colours", f"{case}: colour domains {sorted(doms)}, requested {ncol} colours", case)
+        part.violation(f"{fam}|colours", f"{gc_text(case)}: colour domains {sorted(doms)}, requested {ncol} colours", case)
     # constraints <-> edges
     exp_edges = sorted(gc_expected_edges(case))
     scopes, tables, bad_scope = [], [], []
@@ -300,10 +306,10 @@ def gc_case(case, part, tmpdir, verbose=False):
     got_edges = sorted(scopes)
     structure_ok = not bad_scope and len(names) == n
     if bad_scope:
-        part.violation(f"{fam}|constraint-not-an-edge", f"{case}: constraints with scopes {bad_scope}", case)
+        part.violation(f"{fam}|constraint-not-an-edge", f"{gc_text(case)}: constraints with scopes {bad_scope}", case)
     elif len(set(got_edges)) != len(got_edges):
         dup = sorted(e for e, k in collections.Counter(got_edges).items() if k > 1)
-        part.violation(f"{fam}|edge-with-several-constraints", f"{case}: several constraints on {dup}", case)
+        part.violation(f"{fam}|edge-with-several-constraints", f"{gc_text(case)}: several constraints on {dup}", case)
         structure_ok = False
     elif len(names) == n and got_edges != exp_edges:
         import networkx
@@ -319,7 +325,7 @@ def gc_case(case, part, tmpdir, verbose=False):
             d = "fewer" if len(got_edges) < len(exp_edges) else "more" if len(got_edges) > len(exp_edges) else "other"
             part.violation(
                 f"{fam}|constraints-vs-edges|{d}",
-                f"{case}: constraint scopes {got_edges} but the graph has edges {exp_edges} (not even up to renaming)",
+                f"{gc_text(case)}: constraint scopes {got_edges} but the graph has edges {exp_edges} (not even up to renaming)",
                 case,
             )
             structure_ok = False
@@ -330,7 +336,7 @@ def gc_case(case, part, tmpdir, verbose=False):
         if len(cells) != len(draws) or any(not close(a, b) for a, b in zip(cells, draws)):
             part.violation(
                 f"{fam}|soft-costs-are-not-the-draws",
-                f"{case}: costs over all joint assignments {cells} but the random costs drawn were {draws}",
+                f"{gc_text(case)}: costs over all joint assignments {cells} but the random costs drawn were {draws}",
                 case,
             )
     else:
@@ -344,13 +350,13 @@ def gc_case(case, part, tmpdir, verbose=False):
                     elif not close(v, 0):
                         part.violation(
                             f"{fam}|{form}|cost-on-different-colours",
-                            f"{case}: {cname}({a}={x},{b}={y}) = {v}, expected 0",
+                            f"{gc_text(case)}: {cname}({a}={x},{b}={y}) = {v}, expected 0",
                             case,
                         )
         if any(not (p > 0) for p in penalties) or len(penalties) > 1:
             part.violation(
                 f"{fam}|{form}|same-colour-penalty",
-                f"{case}: costs of equal colours {sorted(penalties)}: expected one positive penalty",
+                f"{gc_text(case)}: costs of equal colours {sorted(penalties)}: expected one positive penalty",
                 case,
             )
     part.maxi("gc_variables", len(names))
@@ -363,7 +369,7 @@ def gc_case(case, part, tmpdir, verbose=False):
     return (len(names), sorted(doms), got_edges, structure_ok, sorted(t[5] for t in tables))
 
 
-def draw_specs_int(ndraws, quick):
+def draw_specs_int(ndraws, quick, plain):
     """Answer vectors for the randint(0, 9) draws of a soft problem with `ndraws` cells."""
     specs = [
         {"menu": INT10, "vec": [], "fill": [0]},
@@ -371,12 +377,17 @@ def draw_specs_int(ndraws, quick):
         {"menu": INT10, "vec": [], "fill": list(range(10))},
         {"menu": INT10, "vec": [], "fill": [7, 3, 3, 0, 9]},
     ]
-    if 0 < ndraws <= 4:
-        menu = [0, 5, 9] if quick else list(range(10))
-        specs += [{"menu": INT10, "vec": list(v), "fill": [0]} for v in itertools.product(menu, repeat=ndraws)]
-    elif 0 < ndraws <= 8:
-        specs += [{"menu": INT10, "vec": list(v), "fill": [0]} for v in itertools.product([0, 9], repeat=ndraws)]
-    return specs
+    if not plain or ndraws == 0:
+        return specs
+    if ndraws <= 2:
+        menu = list(range(10))
+    elif ndraws <= 4:
+        menu = [0, 5, 9]
+    elif ndraws <= 8:
+        menu = [0, 9]
+    else:
+        return specs
+    return specs + [{"menu": INT10, "vec": list(v), "fill": [0]} for v in itertools.product(menu, repeat=ndraws)]
 
 
 NODRAW = {"menu": INT10, "vec": [], "fill": [0]}
@@ -384,19 +395,19 @@ NODRAW = {"menu": INT10, "vec": [], "fill": [0]}
 
 def gc_cases(quick):
     """Simplest first."""
-    def forms(nedges, colors, slim=False):
+    def forms(nedges, colors, slim=False, plain=False):
         yield False, False, NODRAW
         if slim:
             yield True, False, {"menu": INT10, "vec": [], "fill": list(range(10))}
             return
         yield False, True, NODRAW
-        for spec in draw_specs_int(nedges * colors * colors, quick):
+        for spec in draw_specs_int(nedges * colors * colors, quick, plain):
             yield True, False, spec
 
     def base(graph, n, colors, allow, graphs, nedges, slim=False, **extra):
         for noagents in ([False] if slim else [False, True]):
             for to_file in ([False] if slim else [False, True]):
-                for soft, intentional, spec in forms(nedges, colors, slim):
+                for soft, intentional, spec in forms(nedges, colors, slim, plain=not noagents and not to_file):
                     d = dict(fam="gc", graph=graph, n=n, colors=colors, allow=allow, graphs=graphs, soft=soft,
                              intentional=intentional, noagents=noagents, to_file=to_file, draws=spec)
                     d.update(extra)
@@ -429,6 +440,11 @@ def gc_cases(quick):
     # the largest palette on a small graph
     yield from base("random", 2, 8, False, [1], 1, p=0.5)
     yield from base("grid", 4, 8, False, [0], 4)
+    # all 10^4 answer vectors of the four randint(0, 9) draws of the smallest 2-colour soft problem
+    if not quick:
+        for v in itertools.product(range(10), repeat=4):
+            yield dict(fam="gc", graph="random", n=2, colors=2, allow=False, graphs=[1], soft=True, intentional=False,
+                       noagents=False, to_file=False, draws={"menu": INT10, "vec": list(v), "fill": [0]}, p=0.5)
     # grids
     for n in ([1, 4, 9] if quick else [1, 4, 9, 16]):
         for colors in colours:
@@ -455,7 +471,8 @@ def hosting_problems(mapping, computations):
     cnt = collections.Counter(c for comps in mapping.values() for c in comps)
     twice = sorted(c for c in computations if cnt[c] > 1)
     missing = sorted(c for c in computations if cnt[c] == 0)
-    foreign = sorted(c for c in cnt if c not in set(computations))
+    known = set(computations)
+    foreign = sorted(c for c in cnt if c not in known)
     sym = (["hosted-twice"] if twice else []) + (["not-hosted"] if missing else [])
     return sym, {"hosted_twice": twice, "not_hosted": missing, "foreign": foreign}
 
@@ -544,9 +561,9 @@ def ising_direct(case, part, tmpdir=None, verbose=False):
         for (vals, a), (_, b) in zip(te, ti):
             if not close(a, b):
                 part.violation(
-                    f"ising|forms-differ|arity={len(sce)}|k={sign_class(te[0][1])}",
+                    f"ising|forms-differ|arity={len(sce)}",
                     f"generate_ising({rows}x{cols}, bin_range={case['bin']}, un_range={case['un']}): {cname}"
-                    f"{dict(zip(sce, vals))} extensive={a!r} intentional={b!r}", case)
+                    f"{dict(zip(sce, vals))} extensive={a!r} intentional={b!r} (drawn k is {sign_class(te[0][1])})", case)
                 break
     part.maxi("ising_variables", len(ve))
     part.maxi("ising_constraints", len(tables))
